@@ -183,7 +183,7 @@ def run(chk, tier, seed):
         for i in obad:
             m = meta[byn[i]]
             o = obs.get(byn[i], "")
-            chk.violations.append(("malformed input is not handled safely (%s build): %s" % (md, "panic" if o.startswith("PANIC") else "an invalid or oversized value was returned"),
+            chk.violations.append(("malformed input is not handled safely (%s build): %s" % (md, "panic" if o.startswith("PANIC") else ("the process died: " + o[:60]) if o.startswith("ABORT") else "an invalid or oversized value was returned"),
                                    {"type": TG.rust_ty(U["roots"][m["root"]]["ty"]), "bytes_hex": m["bytes"].hex(), "harness_line": lines2[m["n"] - 1][:3000], "observed": o[:400], "build": md}))
         chk.cov["traces_validated_against_impl"] += len(terms)
         chk.cov.setdefault("outcome_classes_" + md, {})
